@@ -539,3 +539,46 @@ package transport
 //@   assert at return 4 b.uncompactedSuffixLen == old(b.uncompactedSuffixLen) + 1 && b.uncompactedSuffixLen <= len(b.backlog) && len(b.backlog) == old(len(b.backlog))
 //@   assert at call Get#1 arg0 == b.uncompactedBytes && b.uncompactedSuffixLen == old(b.uncompactedSuffixLen) + 1
 //@   assert at call Len#1 r.buffer != nil && b.uncompactedSuffixLen == old(b.uncompactedSuffixLen) + 1
+
+// ---- C12: the server's admission of a new stream ------------------------------------------------------
+//
+// operateHeaders (under maxStreamMu for its whole duration): every HEADERS frame
+// whose id passes the id check raises maxStreamID to that id, whatever happens
+// to the request afterwards; the handler is reached only for an odd id above
+// every id seen before, method POST, a valid gRPC content-type, no header
+// error, no connection header, at most one :authority, on a reachable
+// transport, and with the stream registered under t.mu while the number of
+// active streams was below maxStreams.
+
+// writing the early abort only queues control-buffer items (not verified here)
+//@ func (*http2Server).writeEarlyAbort
+//@   trusted
+
+//@ import http "net/http"
+
+//@ func (*http2Server).operateHeaders
+//@   prop C12
+//@   opt purecalls cancel inTapHandle
+//@   requires t != nil && frame != nil && frame.HeadersFrame != nil && t.activeStreams != nil
+//@   loop 1 invariant t.maxStreamID == streamID && streamID%2 == 1 && s != nil && s.id == streamID && mdata != nil
+//@   assert at return 1 ncalls("handle") == 0
+//@   assert at return 2 ncalls("handle") == 0 && (streamID%2 != 1 || streamID <= t.maxStreamID)
+//@   assert at return 3 ncalls("handle") == 0 && t.maxStreamID == streamID
+//@   assert at return 4 ncalls("handle") == 0 && t.maxStreamID == streamID
+//@   assert at return 5 ncalls("handle") == 0 && t.maxStreamID == streamID
+//@   assert at return 6 ncalls("handle") == 0 && t.maxStreamID == streamID
+//@   assert at return 7 ncalls("handle") == 0 && t.maxStreamID == streamID
+//@   assert at return 8 ncalls("handle") == 0 && t.maxStreamID == streamID
+//@   assert at return 9 ncalls("handle") == 0 && t.maxStreamID == streamID
+//@   assert at return 10 ncalls("handle") == 0 && t.maxStreamID == streamID
+//@   assert at return 11 ncalls("handle") == 0 && t.maxStreamID == streamID
+//@   assert at call Lock#2 isGRPC && headerError == nil && !protocolError && len(mdata[":authority"]) <= 1 && len(mdata["host"]) == 0
+//@   assert at call Unlock#7 t.state == reachable && haskey(t.activeStreams, streamID) && t.activeStreams[streamID] == s && uint32(len(t.activeStreams)) <= t.maxStreams && ncalls("put") == 0
+//@   assert at call handle#1 arg0 == s
+//@   assert at call handle#1 s.id == streamID
+//@   assert at call handle#1 t.maxStreamID == streamID && streamID%2 == 1 
+//@   assert at call handle#1 nchanges("maxStreamID") == 1 && lastold("maxStreamID") < Z(streamID)
+//@   assert at call handle#1 httpMethod == http.MethodPost
+//@   assert at call handle#1 isGRPC && headerError == nil && !protocolError
+//@   assert at call handle#1 ncalls("writeEarlyAbort") == 0
+//@   assert at call handle#1 ncalls("put") == 1
